@@ -20,7 +20,11 @@ META = dict(
          "with the run in which it had no effect, requires the hook to return, and checks naturally failing units and per-item steps (masked-item reference) the same way. Liquidation steps (one vault / one borrow, V1 and V2) "
          "are additionally judged by facets around the module's begin blocker run alone: seized, locked-vault written, auction started must be all true or all false - also when an inner "
          "step fails by itself (auction parameters missing, auction type off, price inactive at the auction start, collateral lent out). Hook loops are driven with real work in two CDP apps "
-         "(both white-listed for V1 and V2 liquidation, liquidity in two apps); hooks run while a state's history is produced are judged like plain blocks.",
+         "(both white-listed for V1 and V2 liquidation, liquidity in two apps); hooks run while a state's history is produced are judged like plain blocks. "
+         "Unwrapped hooks are driven through multi-block histories of their inputs (band price rounds for window sizes 1-4: positive runs, zero-rate outages shorter and longer than the "
+         "accepted gap, rebuilds, silent rounds, short answers); optional records are present/absent in governance's set-up orders (lookup table / auction mapping before any fee, second "
+         "asset later, missing white-listing / auction parameters, kill switch); a failing step of another stage of a hook (surplus/debt starter) must leave every listed unit's facets "
+         "as in the run where that step is masked.",
     note="Trusted: TLC/Json module, sim.Digest over all DeFi stores + bank, the observation of unit failures through the wrapper's error log line, the item masks "
          "(borrow flagged liquidated / vault collateral inflated) used only for reference runs. Faults are injected at gas-metered store accesses only.",
     design_ref="4 C15",
